@@ -211,6 +211,7 @@ def energy_models(rnd):
   y = QConv2D(4, 1, kernel_quantizer="quantized_po2(4)", bias_quantizer=QB, name="c2")(x)
   z = L.Add(name="add")([x, y])
   z = L.AveragePooling2D(2, name="pool")(z)
+  z = L.DepthwiseConv2D((2, 2), name="plain_dw")(z)            # non-quantized MAC layers have an op cost too
   z = L.Flatten()(z)
   z = QDense(5, kernel_quantizer="ternary()", bias_quantizer=QB, name="d1")(z)
   ms.append(tf.keras.Model(i, z))
@@ -220,7 +221,8 @@ def energy_models(rnd):
   x = QDense(3, kernel_quantizer=QB, use_bias=False, name="d2")(x)
   ms.append(tf.keras.Model(i, x))
   i = L.Input((9, 2))
-  x = QConv1D(3, 3, kernel_quantizer=QB, bias_quantizer=QB, name="q1")(i)
+  x = L.Conv1D(3, 2, name="plain_c1")(i)
+  x = QConv1D(3, 3, kernel_quantizer=QB, bias_quantizer=QB, name="q1")(x)
   x = L.GlobalAveragePooling1D()(x) if False else L.Flatten()(x)
   x = L.Dense(4, name="plain")(x)
   ms.append(tf.keras.Model(i, x))
